@@ -25,7 +25,7 @@ class HarnessError(Exception):
 
 class SimThread:
     __slots__ = ('sim', 'fn', 'name', 'go', 'state', 'pred', 'deadline', 'exc',
-                 'result', 'th', 'daemon', 'index', 'blocked_on', 'spin')
+                 'result', 'th', 'daemon', 'index', 'blocked_on', 'spin', 'own_steps', 'spin_key')
 
     def __init__(self, sim, fn, name, daemon, index):
         self.sim, self.fn, self.name = sim, fn, name
@@ -39,6 +39,8 @@ class SimThread:
         self.index = index
         self.blocked_on = None
         self.spin = 0
+        self.own_steps = 0
+        self.spin_key = None
         self.th = threading.Thread(target=self._main, name='sim-' + name, daemon=True)
 
     def _main(self):
@@ -83,6 +85,9 @@ class Sim:
         self.decisions = 0
         self.chooser = chooser        # object with .choose(run, cur, info, sim) -> thread
         self.line_hits = {}
+        self.stalls = dict(getattr(chooser, 'stalls', None) or {})
+        self.stall_hits = {}
+        self.stalled = 0
         self.seen_lines = set()
         self.on_advance = []          # callbacks (old, new)
         self.on_line = None           # optional callback(key, thread)
@@ -106,6 +111,18 @@ class Sim:
             key = (fn[fn.rfind('/') + 1:], frame.f_lineno)
             self.seen_lines.add(key)
             if not self.passthrough:
+                st = self.stalls
+                if st:
+                    # delay injection: the thread is descheduled for d virtual seconds right before this line
+                    # (keyed by the step number this event would get, or by (file, line, n-th execution))
+                    d = st.pop(self.steps + 1, None)
+                    if d is None:
+                        o = self.stall_hits.get(key, 0)
+                        self.stall_hits[key] = o + 1
+                        d = st.pop((key[0], key[1], o), None)
+                    if d:
+                        self.stalled += 1
+                        self.block_until(lambda: False, d, what=('stall', d))
                 self.yield_point(('line', key))
         return self._ltrace
 
@@ -205,6 +222,7 @@ class Sim:
         if self.aborted:
             raise SimAbort
         self.steps += 1
+        cur.own_steps += 1
         if self.steps > self.max_steps:
             self._abort('step-bound')
         cur.state = 'runnable'
@@ -224,6 +242,7 @@ class Sim:
         if self.aborted:
             raise SimAbort
         self.steps += 1
+        cur.own_steps += 1
         if self.steps > self.max_steps:
             self._abort('step-bound')
         if pred():
@@ -252,6 +271,18 @@ class Sim:
         if d <= 0:
             cur = self.me()
             cur.spin += 1
+            key = (self.steps - cur.own_steps, self.clock_advances)      # what the others and the clock have done so far
+            again = key == cur.spin_key
+            cur.spin_key = key
+            if again and not any(self._ready(t) for t in self.threads if t is not cur) and \
+                    any(t.state == 'blocked' and t.deadline is not None for t in self.threads):
+                # A thread that comes back to sleep(0) although nothing has happened since its previous sleep(0)
+                # (no other thread took a step, no time passed), while every other thread waits for time to pass:
+                # in real time the spin takes time too.  Park the spinner until the virtual clock has advanced
+                # (otherwise a runnable spinner would freeze the clock for ever).
+                n0 = self.clock_advances
+                self.block_until(lambda: self.clock_advances > n0, what=('spin-until-time-passes',))
+                return
             self.yield_point(('sleep0',), must_switch=True)
         else:
             self.block_until(lambda: False, d, what=('sleep', d))
